@@ -8,6 +8,7 @@ import (
 	"net/url"
 	"strings"
 	"time"
+	_ "time/tzdata"
 
 	"github.com/ja7ad/otp"
 	"github.com/ja7ad/otp/internal/verifh"
@@ -16,7 +17,7 @@ import (
 
 const (
 	workCap     = 200_000 // instrumented statements per library call (a legitimate call needs < 2 000)
-	nCorrupt    = 12
+	nCorrupt    = 15
 	nViewFault  = 6
 	nMisc       = 6
 	nURLCorrupt = 6
@@ -43,12 +44,42 @@ func (a instant) addNs(d int64) instant {
 
 func (a instant) addSec(s int64) instant { a.Sec += s; return a }
 
+func mustZone(name string) *time.Location {
+	l, err := time.LoadLocation(name) // time/tzdata is linked in: no dependency on the host
+	if err != nil {
+		panic(err)
+	}
+	return l
+}
+
+// presentation zones: fixed offsets and tz-database zones with daylight-saving
+// transitions (repeated and skipped wall-clock hours, a 30-minute shift)
 var zones = []*time.Location{
 	time.UTC,
 	time.FixedZone("east14", 14*3600),
 	time.FixedZone("west12", -12*3600),
 	time.FixedZone("odd", 5*3600+45*60+13),
-	time.UTC,
+	mustZone("America/New_York"),
+	mustZone("Europe/Berlin"),
+	mustZone("Australia/Lord_Howe"),
+	mustZone("Asia/Kathmandu"),
+	mustZone("America/Sao_Paulo"),
+	time.Local,
+}
+
+// DSTInstants: UTC seconds of clock changes in the zones above (fall-back and
+// spring-forward); the plan generator aims base instants at them +-2 h.
+var DSTInstants = []int64{
+	1636264800, // 2021-11-07 06:00 UTC New York falls back
+	1615705200, // 2021-03-14 07:00 UTC New York springs forward
+	1635642000, // 2021-10-31 01:00 UTC Berlin falls back
+	1616893200, // 2021-03-28 01:00 UTC Berlin springs forward
+	1617463800, // 2021-04-03 15:30 UTC Lord Howe falls back (30 min)
+	1633188600, // 2021-10-02 15:30 UTC Lord Howe springs forward
+	1550368800, // 2019-02-17 02:00 UTC Sao Paulo falls back
+	1541300400, // 2018-11-04 03:00 UTC Sao Paulo springs forward
+	1730613600, // 2024-11-03 06:00 UTC New York falls back
+	1729990800, // 2024-10-27 01:00 UTC Berlin falls back
 }
 
 var processNow = time.Now() // carries a monotonic reading; its value is never logged or compared
@@ -252,8 +283,22 @@ func damage(stored string, kind int) string {
 			return stored[:1] + "=" + stored[1:] + "A" // padding in the middle
 		}
 		return "=" + stored + "A"
-	default:
+	case 4:
 		return stored + "8"
+	case 5: // legal characters, but a length no base32 text can have (one stray legal character)
+		return stored + "A"
+	case 6: // one character lost
+		if len(stored) > 0 {
+			return stored[:len(stored)-1]
+		}
+		return "A"
+	case 7:
+		if len(stored) > 2 {
+			return stored[:len(stored)-2]
+		}
+		return "AAA"
+	default: // three legal characters: always an impossible length class for canonical input
+		return strings.TrimRight(stored, "= \t\n") + "AAA"
 	}
 }
 
@@ -389,13 +434,50 @@ func corruptCode(code string, kind, arg int) string {
 			return strings.Repeat("0", len(b))
 		}
 		return strings.Repeat("9", len(b))
-	default: // swap two adjacent characters
+	case 12: // swap two adjacent characters
 		if len(b) < 2 {
 			return code + code
 		}
 		i := arg % (len(b) - 1)
 		b[i], b[i+1] = b[i+1], b[i]
 		return string(b)
+	case 13: // same length, numerically equal, textually different: sign / blank instead of a leading zero
+		if len(b) >= 2 && b[0] == '0' {
+			b[0] = []byte("+- \t")[arg%4]
+			if b[0] == '-' {
+				// "-0..0" only equals the code when the code is all zeros; otherwise use '+'
+				allZero := true
+				for _, c := range b[1:] {
+					if c != '0' {
+						allZero = false
+					}
+				}
+				if !allZero {
+					b[0] = '+'
+				}
+			}
+			return string(b)
+		}
+		if len(b) >= 1 {
+			b[0] = '+'
+		}
+		return string(b)
+	case 14: // digits from other scripts / numeric look-alikes for the whole code
+		var sb strings.Builder
+		for _, c := range b {
+			if c >= '0' && c <= '9' {
+				if arg%2 == 0 {
+					sb.WriteRune(0x0660 + rune(c-'0'))
+				} else {
+					sb.WriteRune(0xFF10 + rune(c-'0'))
+				}
+			} else {
+				sb.WriteByte(c)
+			}
+		}
+		return sb.String()
+	default: // trailing characters a lenient number parser skips: same prefix, longer
+		return code + []string{"_", "e0", ".0", "\x00"}[arg%4]
 	}
 }
 
@@ -1191,12 +1273,12 @@ func (s *sim) misc(a *acct, e *Event) {
 	switch e.N {
 	case 0: // generation with the damaged stored secret
 		var err error
-		guarded(func() { _, err = otp.GenerateHOTP(damage(a.tokSecret, 1+e.Net.Corrupt%4), a.verCounter, a.verParam()) })
+		guarded(func() { _, err = otp.GenerateHOTP(damage(a.tokSecret, 1+e.Net.Corrupt%8), a.verCounter, a.verParam()) })
 		check("GenerateHOTP", err, accept)
 	case 1:
 		var err error
 		guarded(func() {
-			_, err = otp.GenerateTOTP(damage(a.tokSecret, 1+e.Net.Corrupt%4), goTime(s.verClock(), 0, false), &otp.Param{Digits: 6, Period: 30})
+			_, err = otp.GenerateTOTP(damage(a.tokSecret, 1+e.Net.Corrupt%8), goTime(s.verClock(), 0, false), &otp.Param{Digits: 6, Period: 30})
 		})
 		check("GenerateTOTP", err, accept)
 	case 2: // provisioning URL corrupted in transit, parsed by the token
